@@ -1,0 +1,85 @@
+//go:build verif
+
+package verifhook
+
+import (
+	"sync"
+	"sync/atomic"
+)
+
+type lockHandlerFunc func(name string) bool
+
+var lockHandler atomic.Value // of lockHandlerFunc
+
+// SetLock installs a handler that is called before a lock is acquired. The
+// handler returns true when the calling goroutine is under the control of a
+// cooperative scheduler; such a goroutine never blocks inside the lock but
+// calls the handler again ("lock.busy") until the lock can be taken.
+func SetLock(h func(name string) bool) {
+	lockHandler.Store(lockHandlerFunc(h))
+}
+
+func atLock(name string) bool {
+	h, _ := lockHandler.Load().(lockHandlerFunc)
+	if h == nil {
+		return false
+	}
+	return h(name)
+}
+
+// Mutex is a sync.Mutex whose Lock is a scheduling point.
+type Mutex struct {
+	mu sync.Mutex
+}
+
+func (m *Mutex) Lock() {
+	if !atLock("lock") {
+		m.mu.Lock()
+		return
+	}
+	for !m.mu.TryLock() {
+		if !atLock("lock.busy") {
+			m.mu.Lock()
+			return
+		}
+	}
+}
+
+func (m *Mutex) Unlock()       { m.mu.Unlock() }
+func (m *Mutex) TryLock() bool { return m.mu.TryLock() }
+
+// RWMutex is a sync.RWMutex whose Lock and RLock are scheduling points.
+type RWMutex struct {
+	mu sync.RWMutex
+}
+
+func (m *RWMutex) Lock() {
+	if !atLock("lock") {
+		m.mu.Lock()
+		return
+	}
+	for !m.mu.TryLock() {
+		if !atLock("lock.busy") {
+			m.mu.Lock()
+			return
+		}
+	}
+}
+
+func (m *RWMutex) RLock() {
+	if !atLock("rlock") {
+		m.mu.RLock()
+		return
+	}
+	for !m.mu.TryRLock() {
+		if !atLock("lock.busy") {
+			m.mu.RLock()
+			return
+		}
+	}
+}
+
+func (m *RWMutex) Unlock()        { m.mu.Unlock() }
+func (m *RWMutex) RUnlock()       { m.mu.RUnlock() }
+func (m *RWMutex) TryLock() bool  { return m.mu.TryLock() }
+func (m *RWMutex) TryRLock() bool { return m.mu.TryRLock() }
